@@ -224,6 +224,7 @@ class Engine:
         self.ad_vars = set()
         self.shard = None
         self.summarize_loops = False
+        self.snap_pi = True
         self.atom_cache = {}
         self.concrete_checks = []
         self.simplified = []
@@ -982,6 +983,11 @@ class Engine:
             raise Inconclusive("float arithmetic on undef")
         if self.fmode == "fp":
             return z3.FPVal(v, z3.Float64() if ty.k == "double" else z3.Float32())
+        if self.snap_pi and v != 0 and ty.k == "double":
+            from . import angles
+            q = angles._snap_pi(v)
+            if q is not None and abs(v) > 1e-3:
+                return RV(str(q)) * angles.PI(self)
         return realval(v)
 
     def bterm(self, v):
